@@ -106,3 +106,78 @@ def inertiaTensor (vs : List (V3 α)) (n : V3 α) (R R2 : M3 α) : M3 α :=
   CP.translateInertia c (rotateTensor (M3.transpose R) I) (area vs n)
 
 end Poly2
+
+/-! ### the object state and `inertia_tensor` as a state-machine step
+
+  `Polygon` keeps exactly two pieces of geometry: `_vertices` and `_normal`.  `Polygon.inertia_tensor`
+  does not compute on copies: it moves the LIVE object into a temporary frame (centroid setter, rotation
+  by the kabsch matrix, normal := ẑ), reads `polar_moment_inertia` and `area` OF THAT TEMPORARY OBJECT, and
+  then writes the saved vertices and normal back.  `inertiaTensorStep` follows the Python statement by
+  statement; every other query is a read (`observe`). -/
+
+/-- the geometry fields of a `Polygon` object -/
+structure PolyState (α : Type) where
+  verts : List (V3 α)
+  normal : V3 α
+
+namespace PolyState
+variable {α : Type} [Scalar α]
+open Scalar
+
+/-- centroid setter (`center` setter is an alias): `self._vertices += np.asarray(value) - self.centroid` -/
+def setCentroid (st : PolyState α) (value : V3 α) (R : M3 α) : PolyState α :=
+  let shift := value - Poly2.centroid st.verts st.normal R
+  { st with verts := st.verts.map (· + shift) }
+
+/-- `Polygon.inertia_tensor`, statement by statement.  `R` = kabsch matrix of the object's normal (the
+    same matrix is returned by every call with that normal: inside `centroid` and the explicit call),
+    `R2` = kabsch matrix of (0,0,1) (the call inside `planar_moments_inertia` of the temporary object).
+    Returns the state the object is left in and the tensor. -/
+def inertiaTensorStep (st : PolyState α) (R R2 : M3 α) : PolyState α × M3 α :=
+  let originalCenter := Poly2.centroid st.verts st.normal R      -- self.center.copy()
+  let originalVertices := st.verts                               -- self._vertices.copy()
+  let originalNormal := st.normal                                -- self._normal.copy()
+  let st1 := setCentroid st ⟨lit 0, lit 0, lit 0⟩ R              -- self.center = (0, 0, 0)
+  let st2 : PolyState α :=                                       -- self._vertices = self._vertices.dot(mat.T)
+    ⟨Poly2.align R st1.verts, ⟨lit 0, lit 0, lit 1⟩⟩             -- self._normal = [0, 0, 1]
+  let j := Poly2.polarMoment st2.verts R2                        -- self.polar_moment_inertia   (temporary frame)
+  let a := Poly2.area st2.verts st2.normal                       -- self.area                   (temporary frame)
+  let z : α := lit 0
+  let I : M3 α := ⟨z, z, z, z, z, z, z, z, j⟩
+  let T := CP.translateInertia originalCenter (Poly2.rotateTensor (M3.transpose R) I) a
+  let st3 : PolyState α := ⟨originalVertices, originalNormal⟩    -- live[:] = original; _normal = original
+  (st3, T)
+
+/-- the read-only measures of C04 (`observe_at`) -/
+inductive Query where
+  | signedArea | area | perimeter | centroid | planar | polar | inertia | center
+  deriving Repr, DecidableEq
+
+def Query.ofCode : Nat → Query
+  | 0 => .signedArea | 1 => .area | 2 => .perimeter | 3 => .centroid
+  | 4 => .planar | 5 => .polar | 6 => .inertia | _ => .center
+
+/-- one property read on the object: the state it leaves behind and the value (flattened to scalars) -/
+def observe (q : Query) (st : PolyState α) (R R2 : M3 α) : PolyState α × List α :=
+  match q with
+  | .signedArea => (st, [Poly2.signedArea st.verts st.normal])
+  | .area => (st, [Poly2.area st.verts st.normal])
+  | .perimeter => (st, [Poly2.perimeter st.verts])
+  | .centroid => let c := Poly2.centroid st.verts st.normal R; (st, [c.x, c.y, c.z])
+  | .center => let c := Poly2.centroid st.verts st.normal R; (st, [c.x, c.y, c.z])
+  | .planar => let m := Poly2.planarMoments st.verts R; (st, [m.1, m.2.1, m.2.2])
+  | .polar => (st, [Poly2.polarMoment st.verts R])
+  | .inertia =>
+      let r := inertiaTensorStep st R R2
+      (r.1, [r.2.xx, r.2.xy, r.2.xz, r.2.yx, r.2.yy, r.2.yz, r.2.zx, r.2.zy, r.2.zz])
+
+/-- a history of reads, threaded through the object state -/
+def observeAll (qs : List Query) (st : PolyState α) (R R2 : M3 α) : PolyState α × List (List α) :=
+  match qs with
+  | [] => (st, [])
+  | q :: rest =>
+      let r := observe q st R R2
+      let r' := observeAll rest r.1 R R2
+      (r'.1, r.2 :: r'.2)
+
+end PolyState
